@@ -14,7 +14,7 @@ package vgirpc
 //@ immutable structDesc.Schema
 //@ immutable structDesc.Fields
 
-//@ func deserializeParams
+//@ func deserializeParamsChecked
 //@   property C07
 //@   at call (*arrow.Schema).Equal assert [declared] arg0 == schemaOf(batch) && arg1 == desc.Schema
 //@   at call setFieldFromArrow assert [gate] schemaEq(schemaOf(batch), desc.Schema)
